@@ -113,6 +113,19 @@ Proof.
     + reflexivity.
 Qed.
 
+(* terminalNodeScore: mate score by the distance from the root when the side to move is in check, the draw score otherwise;
+   the check test itself is the position query `isCurrentKingUnderCheck` (model: Attack.in_check, tied by C09) *)
+Theorem terminalNodeScore_translated : forall position depth nodes (in_check : bool), in_int64 depth -> 0 <= depth <= 1000000 ->
+  run_fn_env fn_terminalNodeScore [position; depth]
+    [("position.isCurrentKingUnderCheck()"%string, b2z in_check); ("evaluatedNodes"%string, nodes)]
+  = Ok (Returned (if in_check then LostScore + depth else DrawScore)).
+Proof.
+  intros position depth nodes ic H H'. unfold run_fn_env, fn_terminalNodeScore.
+  destruct ic; cbn -[int64 LostScore DrawScore Z.add]; [|reflexivity].
+  rewrite int64_id; [reflexivity|]. unfold in_int64, LostScore. lia.
+Qed.
+
+Print Assumptions terminalNodeScore_translated.
 Print Assumptions pliesToMate_translated.
 Print Assumptions killerSlot_translated.
 Print Assumptions nextMoveWins_translated.
